@@ -147,15 +147,22 @@ func runC18(c *Ctx) {
 						}
 						return true
 					})
+				case *ast.SelectorExpr:
+					// (*descriptorpb.FileOptions).GetFoo handed over instead of a closure
+					if tv, ok := info.Types[x.X]; ok && tv.IsType() && namedPath(tv.Type) == "google.golang.org/protobuf/types/descriptorpb.FileOptions" {
+						name := strings.TrimPrefix(x.Sel.Name, "Get")
+						if _, isField := fileOptNums[name]; isField {
+							fields[name]++
+						}
+					}
+					if cst, ok := info.Uses[x.Sel].(*types.Const); ok && namedName(cst.Type()) == "FileOption" {
+						consts = append(consts, cst.Name())
+					}
 				case *ast.Ident:
 					if v, ok := info.Uses[x].(*types.Var); ok && v.Pkg() == pk.Types && v.Parent() == pk.Types.Scope() {
 						if sl, ok := v.Type().(*types.Slice); ok && sl.Elem().String() == "int32" {
 							pathVar = v
 						}
-					}
-				case *ast.SelectorExpr:
-					if cst, ok := info.Uses[x.Sel].(*types.Const); ok && namedName(cst.Type()) == "FileOption" {
-						consts = append(consts, cst.Name())
 					}
 				}
 			}
@@ -169,7 +176,7 @@ func runC18(c *Ctx) {
 				F = k
 			}
 			governed[F] = true
-			c.Ob("PATH-FIELD", inst+"/closures-one-field", call.Pos(), fields[F] >= 3, true, "all closures read/write FileOptions.%s (%d mentions)", F, fields[F])
+			c.Ob("PATH-FIELD", inst+"/closures-one-field", call.Pos(), fields[F] >= 2, true, "all accessors handed over (getter, setter, is-set; closures or method expressions) read/write FileOptions.%s (%d mentions)", F, fields[F])
 			// path
 			var path []string
 			if pathVar != nil {
@@ -348,8 +355,60 @@ func runC18(c *Ctx) {
 			}
 			return true
 		})
+		// the tail "compare, set, Mark" may live in a helper of the package that is handed the setter: the pairing is then
+		// decided inside the helper, and the helper call stands for both the set and the Mark in this function
+		helperPaired := false
+		if len(sets) == 0 && len(marks) == 0 {
+			ast.Inspect(fr.Decl.Body, func(n ast.Node) bool {
+				call, ok := n.(*ast.CallExpr)
+				if !ok || helperPaired {
+					return true
+				}
+				fn := Callee(ginfo, call)
+				if fn == nil || fn.Pkg() != pk.Types {
+					return true
+				}
+				passesSetter := false
+				for _, a := range call.Args {
+					if setParam != nil && identObj(ginfo, a) == setParam {
+						passesSetter = true
+					}
+				}
+				hd := p.DeclOf(fn)
+				if !passesSetter || hd == nil || hd.Decl.Body == nil {
+					return true
+				}
+				hinfo := hd.Info()
+				hg := p.CFGOf(hd.Decl.Body, hinfo)
+				var hsets, hmarks []ast.Node
+				ast.Inspect(hd.Decl.Body, func(m ast.Node) bool {
+					hc, ok := m.(*ast.CallExpr)
+					if !ok {
+						return true
+					}
+					if id, ok := hc.Fun.(*ast.Ident); ok {
+						if v, isVar := hinfo.Uses[id].(*types.Var); isVar {
+							if sig, isSig := v.Type().Underlying().(*types.Signature); isSig && sig.Results().Len() == 0 && sig.Params().Len() == 2 {
+								hsets = append(hsets, hc)
+							}
+						}
+					}
+					if sel, ok := hc.Fun.(*ast.SelectorExpr); ok && sel.Sel.Name == "Mark" && namedName(hinfo.TypeOf(sel.X)) == "MarkSweeper" {
+						hmarks = append(hmarks, hc)
+					}
+					return true
+				})
+				if len(hsets) == 1 && len(hmarks) == 1 && hg.Dominates(hsets[0], hmarks[0]) && !hg.ReachableAvoiding(nil, hmarks[0], hsets) {
+					if bad, _ := hg.ExitReachableAvoiding(hsets[0], hmarks, nil); !bad {
+						helperPaired = true
+						sets, marks = []ast.Node{call}, []ast.Node{call}
+					}
+				}
+				return true
+			})
+		}
 		ok := len(sets) == 1 && len(marks) == 1
-		if ok {
+		if ok && !helperPaired {
 			// no exit between them, and each dominates / is dominated
 			if !g.Dominates(sets[0], marks[0]) {
 				ok = false
